@@ -179,21 +179,19 @@ Proof. unfold locktime_p. pose proof (lt_fold_inv inputs (Unconstrained, Unconst
 (* ------------------------------------------------------------------------------------------------ Global::merge, xpub branch *)
 Lemma eqp_spec (a b : list N) : (if list_eq_dec N.eq_dec a b then true else false) = true <-> a = b.
 Proof. destruct (list_eq_dec N.eq_dec a b); split; congruence. Qed.
-(* the panic class is exactly F2: other's path strictly shorter than self's and not its suffix *)
-Lemma merge_xpub_panic_iff f2 d2 f1 d1 : (exists w, merge_xpub f2 d2 f1 d1 = Panic w) <-> known_F2 d2 d1 = true.
-Proof. unfold merge_xpub, known_F2, is_suffix.
-  destruct (Nat.ltb_spec (length d1) (length d2)) as [Lt|Ge].
-  - assert (Hle : (length d1 <=? length d2)%nat = true) by (apply Nat.leb_le; lia). rewrite Hle. cbn [andb].
-    destruct (list_eq_dec N.eq_dec d1 d2) as [->|NE]; [lia|]. cbn [andb].
-    rewrite usub_ok by lia. cbn [bind]. rewrite slice_from_ok by lia. cbn [bind].
-    destruct (list_eq_dec N.eq_dec d1 (skipn (length d2 - length d1) d2)) as [S|NS]; cbn [negb].
-    + split; [intros [w H]; discriminate|discriminate].
-    + rewrite usub_panic by lia. cbn [bind]. split; eauto.
-  - cbn [andb]. split; [|discriminate]. intros [w H]. destruct (_ && _); [discriminate|].
-    cbn [bind] in H. rewrite usub_ok in H by lia. cbn [bind] in H. rewrite slice_from_ok in H by lia. cbn [bind] in H.
-    destruct (list_eq_dec N.eq_dec d2 _); discriminate. Qed.
-Lemma merge_xpub_refuted : merge_xpub [x00; x00; x00; x00] [1; 2; 3] [x00; x00; x00; x00] [9] = Panic WSub.
-Proof. reflexivity. Qed.
+(* both subtractions sit behind their length tests (the second one since 4b01389) *)
+Lemma merge_xpub_total f2 d2 f1 d1 w : merge_xpub f2 d2 f1 d1 <> Panic w.
+Proof. unfold merge_xpub. destruct (_ && _); [discriminate|].
+  destruct (Nat.ltb_spec (length d1) (length d2)).
+  - rewrite usub_ok by lia. cbn [bind]. rewrite slice_from_ok by lia. cbn [bind]. destruct (list_eq_dec N.eq_dec d1 _); [discriminate|].
+    destruct (Nat.ltb_spec (length d2) (length d1)); [lia|]. cbn [bind]. discriminate.
+  - cbn [bind]. destruct (Nat.ltb_spec (length d2) (length d1)); cbn [bind]; [|discriminate].
+    rewrite usub_ok by lia. cbn [bind]. rewrite slice_from_ok by lia. cbn [bind]. destruct (list_eq_dec N.eq_dec d2 _); discriminate. Qed.
+(* what the repaired branch decides: keep on identical sources or when other's path is a proper suffix of self's, replace when self's is a
+   proper suffix of other's, conflict otherwise (in particular equal paths with different fingerprints, formerly F4) *)
+Lemma merge_xpub_conflict_equal_paths f2 f1 d : f1 <> f2 -> merge_xpub f2 d f1 d = Fail (E "conflict").
+Proof. intros NE. unfold merge_xpub. destruct (list_eq_dec N.eq_dec d d); [|contradiction]. destruct (bytes_eqb_spec f1 f2); [contradiction|]. cbn [andb].
+  rewrite Nat.ltb_irrefl. cbn [bind]. reflexivity. Qed.
 
 (* ------------------------------------------------------------------------------------------------ Transaction::blind, output selection *)
 Definition nblind (outs : list bout) : nat := length (filter to_blind outs).
@@ -215,25 +213,16 @@ Proof. induction outs as [|o rest IH]; intros i n nb last bl r H Hn; cbn [blind_
     + destruct (IH _ _ _ _ _ _ H ltac:(lia)) as [A B]. split.
       * intros Hn0. destruct (A Hn0) as [Z _]. discriminate.
       * intros li Hl. destruct (B li Hl) as [Z|Z]; [inversion Z; subst; right; lia|right; lia]. Qed.
-Lemma nblind_zero outs : nblind outs = 0%nat <-> known_F12 outs = true.
-Proof. unfold nblind, known_F12. induction outs as [|o r IH]; cbn [filter existsb length]; [tauto|].
-  destruct (to_blind o); cbn [length orb negb]; [split; [lia|discriminate]|exact IH]. Qed.
-Lemma blind_loop_none : forall outs i n nb last bl, nblind outs = 0%nat -> blind_loop outs i n nb last bl = Val (last, rev' bl).
-Proof. unfold nblind. induction outs as [|o r IH]; intros i n nb last bl K; cbn [blind_loop]; [reflexivity|].
-  cbn [filter] in K. unfold to_blind in K at 1. destruct (bo_fee o); cbn [orb negb andb] in *; [now apply IH|].
-  destruct (bo_marked o); cbn [negb] in *; [cbn [length] in K; lia|now apply IH]. Qed.
 Lemma blind_loop_no_panic : forall outs i n nb last bl w, blind_loop outs i n nb last bl <> Panic w.
 Proof. induction outs as [|o r IH]; intros i n nb last bl w; cbn [blind_loop]; [discriminate|].
   destruct (bo_fee o || negb (bo_marked o)); [apply IH|]. destruct (negb (bo_addr o)); [discriminate|]. destruct (_ <? _)%nat; apply IH. Qed.
-(* the only panic is the `expect` when no output is marked for blinding: F12 *)
-Lemma blind_select_panic_iff outs : (exists w, blind_select outs = Panic w) <-> known_F12 outs = true.
-Proof. unfold blind_select. fold (nblind outs). split.
-  - intros [w H]. destruct (blind_loop outs 0 (nblind outs) 0 None []) as [[last bl]|e|w'] eqn:L; cbn [bind] in H; [|discriminate|exfalso; exact (blind_loop_no_panic _ _ _ _ _ _ _ L)].
-    destruct (blind_loop_spec _ _ _ _ _ _ _ L ltac:(lia)) as [A B]. cbn [fst] in A, B. destruct last as [li|]; cbn [expect bind] in H.
-    + destruct (B li eq_refl) as [Z|Z]; [discriminate|]. rewrite (idx_ok outs li {| bo_fee := false; bo_marked := false; bo_addr := false |}) in H by lia. discriminate.
-    + destruct (A eq_refl) as [_ Z]. now apply nblind_zero.
-  - intros K. apply nblind_zero in K. rewrite blind_loop_none by exact K. cbn. eauto. Qed.
-Lemma blind_select_refuted : blind_select [ {| bo_fee := true; bo_marked := false; bo_addr := false |} ] = Panic WExpect. Proof. reflexivity. Qed.
+(* since 8d5600e an empty selection is the error TooFewBlindingOutputs; the index of the last marked output is in range *)
+Lemma blind_select_total outs w : blind_select outs <> Panic w.
+Proof. unfold blind_select. fold (nblind outs). intros H.
+  destruct (blind_loop outs 0 (nblind outs) 0 None []) as [[last bl]|e|w'] eqn:L; cbn [bind] in H; [|discriminate|exact (blind_loop_no_panic _ _ _ _ _ _ _ L)].
+  destruct (blind_loop_spec _ _ _ _ _ _ _ L ltac:(lia)) as [A B]. cbn [fst] in A, B. destruct last as [li|]; cbn [bind] in H; [|discriminate].
+  destruct (B li eq_refl) as [Z|Z]; [discriminate|]. rewrite (idx_ok outs li {| bo_fee := false; bo_marked := false; bo_addr := false |}) in H by lia. discriminate. Qed.
+Lemma blind_select_nothing_marked : blind_select [ {| bo_fee := true; bo_marked := false; bo_addr := false |} ] = Fail (E "toofew"). Proof. reflexivity. Qed.
 
 (* ------------------------------------------------------------------------------------------------ fee sums *)
 Lemma fee_sum_release vals : forall acc w, fee_sum Release vals acc <> Panic w.
@@ -254,14 +243,18 @@ Lemma fee_in_refuted : fee_in Debug [(3, 18446744073709551615); (3, 1)] 3 = Pani
 Proof. split; reflexivity. Qed.
 
 (* ------------------------------------------------------------------------------------------------ commitments from slices *)
-Lemma from_commitment_panic_iff pt_ok sl : (exists w, from_commitment_p pt_ok sl = Panic w) <-> known_F18 sl = true.
-Proof. unfold from_commitment_p, known_F18. destruct (Nat.eqb (length sl) 33); cbn [negb]; split; try discriminate; eauto. intros [w H]; discriminate. Qed.
+Lemma from_commitment_p_total pt_ok sl w : from_commitment_p pt_ok sl <> Panic w.
+Proof. unfold from_commitment_p, read33. destruct (Nat.eqb (length sl) 33); discriminate. Qed.
+(* the length test added by 838e50c is what this rests on: the hand-over without it reads out of bounds on every other length *)
+Lemma read33_oob pt_ok sl : (exists w, read33 pt_ok sl = Panic w) <-> length sl <> 33%nat.
+Proof. unfold read33. destruct (Nat.eqb_spec (length sl) 33); split; try congruence; eauto. intros [w H]; discriminate. Qed.
 
 (* ------------------------------------------------------------------------------------------------ TaprootBuilder *)
-Lemma finalize_p_api items b : api_builder items = Taproot.Ok b -> forall s, finalize_p b <> Taproot.Panic s.
-Proof. unfold api_builder, finalize_p. intros R s. destruct (run_head_some triv triv items b R) as [->|(n & r & ->)]; [discriminate|].
-  unfold Taproot.finalize. destruct (1 <? _)%nat; [discriminate|]. unfold from_node_info, new_key_spend, tap_tweak. cbn. discriminate. Qed.
-Lemma finalize_p_serde_refuted : finalize_p [None] = Taproot.Panic BuilderInvariant /\ known_F16 [None] = true. Proof. split; reflexivity. Qed.
+(* since c723f02 finalize has no panic left, whatever the state — API-built or produced by serde *)
+Lemma finalize_p_total b s : finalize_p b <> Taproot.Panic s.
+Proof. unfold finalize_p, Taproot.finalize. destruct (1 <? _)%nat; [discriminate|]. destruct b as [|[n|] r]; try discriminate;
+  unfold from_node_info, new_key_spend, tap_tweak; cbn; discriminate. Qed.
+Lemma finalize_p_serde : finalize_p [None] = Taproot.Fail IncompleteTree. Proof. reflexivity. Qed.
 
 (* ------------------------------------------------------------------------------------------------ blech32 decode *)
 Definition validc (c : byte) : bool := match from_char c with Some _ => true | None => false end.
@@ -319,28 +312,24 @@ Lemma segwit_tail_no_panic c h d : forallb validc d = true ->
   hpanic (hbind (validate_checksum_p c h d) (fun _ => hbind (remove_checksum_p c d) (fun d' => validate_segwit_p h d'))) = false.
 Proof. intros V. pose proof (checksum_steps c h d V) as S. destruct (validate_checksum_p c h d) as [[]|e|w]; cbn [hbind] in *; [|reflexivity|contradiction].
   destruct (remove_checksum_p c d) as [d'|e|w]; cbn [hbind] in *; [|reflexivity|contradiction]. now apply validate_segwit_no_panic. Qed.
-Lemma segwit_front_spec guarded s :
-  match segwit_front guarded s with
+Lemma segwit_front_spec s :
+  match segwit_front s with
   | HOk (h, d, ver) => forallb validc d = true
   | HErr _ => True
-  | HPanic _ => guarded = false /\ known_F1 s = true end.
-Proof. unfold segwit_front, known_F1. pose proof (unchecked_no_panic s) as U. destruct (unchecked_new_p s) as [[h d]|e|w] eqn:Eu; cbn [hbind]; [|exact I|discriminate].
-  pose proof (unchecked_valid _ _ _ Eu) as V. destruct d as [|c r].
-  - destruct guarded; cbn [andb Script.is_empty]; [exact I|]. cbn. auto.
-  - cbn [Script.is_empty]. rewrite andb_false_r. rewrite (idx_ok (c :: r) 0 x00) by (cbn; lia). cbn [nth of_outcome hbind].
-    pose proof V as V'. cbn [forallb] in V'. apply andb_true_iff in V' as [Vc _]. unfold validc in Vc. destruct (from_char c); [|discriminate]. cbn [expect of_outcome hbind].
-    destruct (_ <? _); [exact I|exact V]. Qed.
+  | HPanic _ => False end.
+Proof. unfold segwit_front. pose proof (unchecked_no_panic s) as U. destruct (unchecked_new_p s) as [[h d]|e|w] eqn:Eu; cbn [hbind]; [|exact I|discriminate].
+  pose proof (unchecked_valid _ _ _ Eu) as V. destruct d as [|c r]; [exact I|].
+  cbn [Script.is_empty]. rewrite (idx_ok (c :: r) 0 x00) by (cbn; lia). cbn [nth of_outcome hbind].
+  pose proof V as V'. cbn [forallb] in V'. apply andb_true_iff in V' as [Vc _]. unfold validc in Vc. destruct (from_char c); [|discriminate]. cbn [expect of_outcome hbind].
+  destruct (_ <? _); [exact I|exact V]. Qed.
 Lemma segwit_new_no_panic s : hpanic (segwit_new_p s) = false.
-Proof. unfold segwit_new_p. pose proof (segwit_front_spec true s) as F. destruct (segwit_front true s) as [[[h d] ver]|e|w]; cbn [hbind]; [|reflexivity|destruct F; discriminate].
+Proof. unfold segwit_new_p. pose proof (segwit_front_spec s) as F. destruct (segwit_front s) as [[[h d] ver]|e|w]; cbn [hbind]; [|reflexivity|contradiction].
   now apply segwit_tail_no_panic. Qed.
-(* new_bech32 panics exactly on the class of F1 *)
-Lemma segwit_new_bech32_panic_iff s : hpanic (segwit_new_bech32_p s) = known_F1 s.
-Proof. unfold segwit_new_bech32_p. pose proof (segwit_front_spec false s) as F. destruct (segwit_front false s) as [[[h d] ver]|e|w] eqn:Ef; cbn [hbind].
-  - rewrite segwit_tail_no_panic by exact F. symmetry. unfold segwit_front in Ef. unfold known_F1. destruct (unchecked_new_p s) as [[h' d']|e|w]; [|reflexivity|reflexivity].
-    destruct d' as [|c r]; [|reflexivity]. cbn in Ef. discriminate.
-  - unfold segwit_front in Ef. unfold known_F1. destruct (unchecked_new_p s) as [[h' d']|e'|w]; [|reflexivity|reflexivity]. destruct d' as [|c r]; [|reflexivity]. cbn in Ef. discriminate.
-  - destruct F as [_ ->]. reflexivity. Qed.
-Lemma segwit_new_bech32_refuted : segwit_new_bech32_p [x61; x31] = HPanic WIndex /\ known_F1 [x61; x31] = true. Proof. split; reflexivity. Qed.
+(* since a4bc64e new_bech32 has the same guard *)
+Lemma segwit_new_bech32_no_panic s : hpanic (segwit_new_bech32_p s) = false.
+Proof. unfold segwit_new_bech32_p. pose proof (segwit_front_spec s) as F. destruct (segwit_front s) as [[[h d] ver]|e|w]; cbn [hbind]; [|reflexivity|contradiction].
+  now apply segwit_tail_no_panic. Qed.
+Lemma segwit_new_bech32_empty_data : segwit_new_bech32_p [x61; x31] = HErr ENoData. Proof. reflexivity. Qed.
 
 (* ------------------------------------------------------------------------------------------------ taproot / schnorr slice parsers *)
 Lemma NODE_32 : NODE = 32%nat. Proof. reflexivity. Qed.
